@@ -436,9 +436,9 @@ Proof.
   intros Hne. unfold pstep. destruct (p_any s) eqn:Ea.
   - destruct (find_tri tris (p_free s) (p_indices s)) as [[[i fl] es] |] eqn:EF; unfold mu; simpl; rewrite ?Ea.
     + apply find_tri_some in EF. destruct EF as [Hi _]. pose proof (remove_first_length i _ Hi). lia.
-    + apply Nat.add_lt_mono_l. constructor.
+    + lia.
   - destruct (p_indices s) as [| i r] eqn:Ei; [congruence |].
-    unfold mu. simpl. rewrite Nat.eqb_refl. simpl. rewrite Ea. lia.
+    unfold mu. simpl. rewrite Nat.eqb_refl. simpl. rewrite Ea, ?Ei. simpl. lia.
 Qed.
 
 Lemma ploop_indices fuel : forall s, mu s <= fuel -> p_indices (ploop fuel tris s) = [].
@@ -464,3 +464,53 @@ Proof.
   intros i j Hi Hj Hne. apply B6; [split | split |]; try assumption; rewrite HE; intros [].
 Qed.
 End Propag.
+
+(* ------------------------------------------------------------------ the theorem *)
+Lemma apply_mask_length fs m : length (apply_mask fs m) = length fs.
+Proof. symmetry. exact (F2_length _ _ _ (apply_mask_vperm fs m)). Qed.
+
+Lemma nth_edges_apply_mask fs m i : i < length fs -> length m = length fs ->
+  nth i (map edges_of (apply_mask fs m)) [] = edges_of (orient (nth i m false) (nth i fs dface)).
+Proof.
+  intros Hi Hl.
+  rewrite (nth_indep _ [] (edges_of dface)) by (rewrite map_length, apply_mask_length; exact Hi).
+  rewrite map_nth, (apply_mask_each fs m i Hi Hl). reflexivity.
+Qed.
+
+Theorem propagation_consistent tris oracle :
+  orientable tris -> consistent (fix_trimesh_orientation tris oracle).
+Proof.
+  intros [sigma [Hlen Hc]]. unfold consistent, directed_edges in *.
+  apply concat_nodup_elim in Hc. destruct Hc as [C1 C2].
+  rewrite map_length, apply_mask_length in C1, C2.
+  assert (E0 : forall i, i < length tris ->
+             nth i (map edges_of (apply_mask tris sigma)) [] = edges_of (sg tris sigma false i)).
+  { intros i Hi. rewrite (nth_edges_apply_mask tris sigma i Hi Hlen). unfold sg, sgb, tri.
+    rewrite xorb_false_r. reflexivity. }
+  assert (Hsig : forall d i j, i < length tris -> j < length tris -> i <> j ->
+                 dir_disjoint (sg tris sigma d i) (sg tris sigma d j)).
+  { assert (H0 : forall i j, i < length tris -> j < length tris -> i <> j ->
+                 dir_disjoint (sg tris sigma false i) (sg tris sigma false j)).
+    { intros i j Hi Hj Hne e He. rewrite <- (E0 i Hi) in He. rewrite <- (E0 j Hj). exact (C2 i j Hi Hj Hne e He). }
+    intros [|] i j Hi Hj Hne; [| apply H0; assumption].
+    assert (Hf : forall k, sg tris sigma true k = flip_face (sg tris sigma false k)).
+    { intros k. unfold sg. destruct (sgb sigma k); simpl; [symmetry; apply flip_invol | reflexivity]. }
+    rewrite !Hf. apply dir_flip, H0; assumption. }
+  destruct (final_pairwise tris sigma Hsig oracle) as [Hml Hp].
+  unfold fix_trimesh_orientation, get_inwards_mask.
+  set (s := pfinal tris oracle) in *.
+  apply concat_nodup_intro; rewrite map_length, apply_mask_length.
+  - intros i Hi. rewrite (nth_edges_apply_mask tris (p_mask s) i Hi Hml).
+    specialize (C1 i Hi). rewrite (E0 i Hi) in C1. unfold sg, tri in C1.
+    eapply NoDup_edges_orient. exact C1.
+  - intros i j Hi Hj Hne e He.
+    rewrite (nth_edges_apply_mask tris (p_mask s) i Hi Hml) in He.
+    rewrite (nth_edges_apply_mask tris (p_mask s) j Hj Hml).
+    exact (Hp i j Hi Hj Hne e He).
+Qed.
+
+(* non-vacuity: the tetrahedron is orientable (as given), so is every re-winding of it *)
+Lemma tet_orientable : orientable tet.
+Proof.
+  exists [false; false; false; false]. split; [reflexivity |]. apply nodupb_NoDup. vm_compute. reflexivity.
+Qed.
